@@ -9,7 +9,8 @@ RULE = ('all strings over a category/word alphabet (40 symbols, exhaustive up to
         'generated well-formed documents, and chains of up to 40 nested constructs (closed, truncated at every depth, one '
         'closer removed); each in both tolerance modes under a 10 s watchdog (an expiry is re-run alone with 45 s; normal cost < 0.1 s). Oracle: the outcome is a tree whose str() '
         'returns, EOFError(...expecting...), TypeError(...Malformed argument...) or one of the two documented '
-        'AssertionErrors. Non-trivial = the two modes do not both accept the input, or it nests >=3 deep; distinct by string')
+        'AssertionErrors. Non-trivial = the two modes do not both accept the input, or it nests >=3 deep; distinct by string'
+        '. Also: all strings of <= 3 symbols over 31 written forms of environment delimiters (A_ENV), composite openers in the chains, and one symbol repeated 1025 (thorough 257..3000) times in 7 wrappers (all non-trivial)')
 ASSUMPTIONS = [
     'a watchdog expiry (10 s) is re-run alone with 45 s before it is reported as a hang; after one confirmed hang further inputs get 3 s, '
     'hanging inputs are not minimised, and after 6 expiries a worker stops judging (the verdict is already fixed)',
